@@ -25,7 +25,7 @@ std::atomic<uintptr_t> the_context_state_propagation_epoch{};
 std::pair<bool, std::size_t> std::__detail::_Prime_rehash_policy::_M_need_rehash(std::size_t, std::size_t, std::size_t) const { return {false, 0}; }
 
 extern "C" void vp_body(int i);                  // user work: the harness makes it "throw" on a symbolic subset of calls
-extern "C" void vp_wait_result(int group, int status, int threw);
+extern "C" void vp_wait_result(int group, int status, int threw, int cancelled_after);
 extern "C" void vp_note(int what, int arg);
 
 static thread_data* vp_td;
@@ -49,8 +49,8 @@ unsigned vp_arena_alloc_size() { return (unsigned)arena::allocation_size(2); }
 // exercised here read: 2 slots (external + 1 worker slot, never occupied), mailboxes, default dispatchers
 // the storage comes from the harness as zero-initialised objects of the generated struct types (typed memory keeps cbmc's
 // encoding small; a byte buffer + memset does not)
-unsigned vp_sizeof(int what) { return what == 0 ? sizeof(mail_outbox) : what == 1 ? sizeof(arena) : what == 2 ? sizeof(arena_slot) : what == 3 ? sizeof(task_dispatcher) : what == 4 ? sizeof(thread_data) : what == 5 ? sizeof(cancellation_disseminator) : sizeof(thread_control_monitor); }
-void vp_setup(void* arena_at, void* td_mem, void* cd_mem, void* disp0, void* disp1, void* mon_mem) {
+unsigned vp_sizeof(int what) { return what == 0 ? sizeof(mail_outbox) : what == 1 ? sizeof(arena) : what == 2 ? sizeof(arena_slot) : what == 3 ? sizeof(task_dispatcher) : what == 4 ? sizeof(thread_data) : what == 5 ? sizeof(cancellation_disseminator) : what == 6 ? sizeof(thread_control_monitor) : sizeof(d1::task_group_context); }
+void vp_setup(void* arena_at, void* td_mem, void* cd_mem, void* disp0, void* disp1, void* mon_mem, void* defctx_mem) {
   vp_mon = new (mon_mem) thread_control_monitor();
   const unsigned ns = 2;
   arena* a = reinterpret_cast<arena*>(arena_at);
@@ -59,6 +59,8 @@ void vp_setup(void* arena_at, void* td_mem, void* cd_mem, void* disp0, void* dis
   a->my_references = arena::ref_external;
   a->my_threading_control = reinterpret_cast<threading_control*>(vp_cd_mem);   // only used through the forwarder above
   // (the real arena places the default dispatchers right behind the slots; nothing but the constructor depends on that)
+  // "Initialize the default context. It should be allocated before task_dispatch construction." (arena::arena)
+  a->my_default_ctx = new (defctx_mem) d1::task_group_context{ d1::task_group_context::isolated, d1::task_group_context::fp_settings };
   void* disp[2] = { disp0, disp1 };
   for (unsigned i = 0; i < ns; ++i) {
     a->mailbox(i).construct();
@@ -81,17 +83,19 @@ unsigned long vp_pool_left() {
 int vp_ctx_list_empty() { return vp_td->my_context_list->empty(); }
 
 // ---- scenario 1: task_group with n tasks, wait, then reuse
+static int vp_cancelled(tbb::task_group& tg) { return tg.m_context.actual_context().is_group_execution_cancelled(); }
 void vp_tg(int n, int reuse) {
   tbb::task_group tg;
   for (int i = 0; i < n; i++) tg.run([i] { vp_body(i); });
   int st = -1, threw = 0;
   try { st = (int)tg.wait(); } catch (...) { threw = 1; vp_note(1, 0); }
-  vp_wait_result(0, st, threw);
+  vp_wait_result(0, st, threw, vp_cancelled(tg));
   if (reuse) {
-    tg.run([] { vp_body(100); });
+    int id = 100;
+    tg.run([id] { vp_body(id); });
     st = -1; threw = 0;
     try { st = (int)tg.wait(); } catch (...) { threw = 1; vp_note(1, 1); }
-    vp_wait_result(1, st, threw);
+    vp_wait_result(1, st, threw, vp_cancelled(tg));
   }
 }
 // ---- scenario 2: run_and_wait (function_stack_task executed without spawn) + spawned siblings
@@ -100,23 +104,25 @@ void vp_tg_raw(int n) {
   for (int i = 0; i < n; i++) tg.run([i] { vp_body(i); });
   int st = -1, threw = 0;
   try { st = (int)tg.run_and_wait([n] { vp_body(n); }); } catch (...) { threw = 1; vp_note(1, 0); }
-  vp_wait_result(0, st, threw);
+  vp_wait_result(0, st, threw, vp_cancelled(tg));
 }
-// ---- scenario 3: nested group: the outer task runs an inner task_group and waits for it
-void vp_tg_nested(int n) {
+// ---- scenario 3: nested group: an outer task runs an inner task_group and waits for it while a sibling of the outer group
+// is still in the pool; with do_catch == 0 the inner wait's exception escapes from the outer task's body
+void vp_tg_nested(int n, int do_catch) {
   tbb::task_group outer;
-  outer.run([n] {
+  int one = 1;
+  outer.run([one] { vp_body(one); });
+  outer.run([n, do_catch] {
     tbb::task_group inner;
     for (int i = 0; i < n; i++) inner.run([i] { vp_body(10 + i); });
     int st = -1, threw = 0;
-    try { st = (int)inner.wait(); } catch (...) { threw = 1; vp_note(1, 1); }
-    vp_wait_result(1, st, threw);
+    try { st = (int)inner.wait(); } catch (...) { threw = 1; vp_note(1, 1); if (!do_catch) { vp_wait_result(1, st, threw, vp_cancelled(inner)); vp_note(2, 0); throw; } }
+    vp_wait_result(1, st, threw, vp_cancelled(inner));
     vp_body(0);
   });
-  outer.run([] { vp_body(1); });
   int st = -1, threw = 0;
   try { st = (int)outer.wait(); } catch (...) { threw = 1; vp_note(1, 0); }
-  vp_wait_result(0, st, threw);
+  vp_wait_result(0, st, threw, vp_cancelled(outer));
 }
 }
 // ---- probes (debug)
@@ -124,5 +130,5 @@ extern "C" void vp_probe(int k) {
   d1::wait_context_vertex wv;
   if (k == 0) { auto* v = r1::get_thread_reference_vertex(&wv); v->reserve(1); v->release(1); }
   if (k == 1) { d1::small_object_allocator alloc{}; void* p = r1::allocate(alloc.m_pool, 64); vp_note(9, p != nullptr); }
-  if (k == 2) { tbb::task_group tg; tg.run([] { vp_body(0); }); vp_note(9, 1); }
+  if (k == 2) { tbb::task_group tg; tg.run([k] { vp_body(k); }); vp_note(9, 1); }
 }
